@@ -11,6 +11,9 @@ from . import common, pipeline
 def cmake_content(tag):
     """a small documented module whose text names its tag (so pages can be told apart)"""
     t = tag.replace("/", "_").replace(".", "_").replace("-", "_")
+    if tag.startswith("ff"):
+        # a doccomment with characters that str.splitlines() treats as line breaks (CMake and reST do not)
+        return (f"#[[[\n# Page break\x0c here, LS\u2028 there.\n#]]\nfunction(fn_{t} arg)\nendfunction()\n")
     return (f"#[[[\n# Doc of function in {tag}.\n#]]\nfunction(fn_{t} arg)\n  cmake_parse_arguments(A \"\" \"\" \"\" ${{ARGN}})\n"
             f"endfunction()\n\nmacro(undocumented_{t})\nendmacro()\n")
 
